@@ -134,17 +134,20 @@ claim("C10", "proof",
       "Lean 4 proof (refinement of the renamer to lexical resolution) + per-occurrence correspondence", "5 (C10)")
 
 claim("C14", "proof",
-      "Translation validation with a verified checker. Lean 4 theorems (Props/C14.lean): if the local certificate check of an SSA CFG passes "
-      "(edge conditions against a per-block entry map, reads evaluated in the running map, phis as a prefix), then for EVERY path from the "
-      "entry, of any length, executing the path yields the certificate's map at the end of each block, every read of every non-phi statement "
-      "names the version most recently assigned on that path (an element-wise update of a declared but unassigned array reads the version "
-      "defined by its declaration), and every version reaching a join on some path is an argument of the phi. The check, plus the static "
-      "clauses (unique definitions, phis at block heads, signals/components unversioned and locals versioned, every version declared, non-phi "
-      "statements equal to the pre-SSA ones) is run on every real SSA CFG of hand-written and generated definitions. NOT proved: that the "
-      "SSA construction passes the check for every CFG (stated as C14_construction_statement).",
-      "Lean kernel + standard axioms; abstraction of the dump into (target, reads, implicit definition) per statement is driver code; the "
-      "universal claim about the algorithm is validated per instance, not proved.",
-      "Lean 4 proof of a certificate checker's soundness for all paths + per-instance checking of real SSA CFGs", "5 (C14)")
+      "Lean 4 theorems (Props/C14.lean). (1) A verified certificate checker: if the local check of an SSA CFG passes (edge conditions against a "
+      "per-block entry map, reads evaluated in the running map, phis as a prefix), then for EVERY path from the entry, of any length, every read "
+      "of every non-phi statement names the version most recently assigned on that path (an element-wise update of a declared but unassigned "
+      "array reads the version defined by its declaration), and every version reaching a join on some path is an argument of the phi. (2) The "
+      "construction (Model/SsaBuild.lean: the work list of insert_phi_statements, and the renaming through its scoped environment, with the numbers "
+      "of the global counter as a parameter) passes that check for every rooted CFG and every numbering (C14_construction; the join condition "
+      "without phi by the dominance-frontier argument over C15), hence has the path property (C14_construction_paths). Tie to the code: the "
+      "construction model, run on the real CFG before SSA conversion with the version numbers of the real SSA dump, must rebuild the dump (phi "
+      "statements and arguments as sets, other statements in order) or fail exactly when the real conversion fails; and every real SSA dump goes "
+      "through the verified checker plus the static clauses (unique definitions = freshness of the numbering, phis at block heads, "
+      "signals/components unversioned and locals versioned, every version declared, non-phi statements equal to the pre-SSA ones).",
+      "Lean kernel + standard axioms; abstraction of the dumps into (target, reads, element-wise update) per statement is driver code; the "
+      "termination of the phi work list is assumed in C14_construction (`= some Pf`) and observed on every instance; correspondence is sampled.",
+      "Lean 4 proof (checker soundness for all paths; the construction model passes the checker for every CFG and numbering) + rebuilding of real SSA dumps by the model", "5 (C14)")
 
 claim("C07", "proof",
       "The graphs of the real Degree and DegreeRange functions (20 infix, 3 prefix operators on all operand degrees and all well-formed ranges, "
